@@ -266,6 +266,43 @@ def checkPath (sent listed : List ApiAttr) : Verdict :=
       if listed.all (fun y => sent.any (fun x => sameListed x y) || y = .origin 0 || y = .asPath []) then .ok
       else .fail "listed-path-has-extra-attribute"
 
+/-! ### the RPKI state shown for the listed path (RFC 6811), from the request alone -/
+
+/-- route origin AS (RFC 6811 §2): last AS of a final AS_SEQUENCE; NONE for a final AS_SET; the speaker's own AS
+    for an empty path or a confederation tail -/
+def routeOrigin (localAs : Nat) (sent : List ApiAttr) : Option Nat :=
+  match sent.findSome? (fun x => match x with | .asPath segs => some segs | _ => none) with
+  | none => some localAs
+  | some segs =>
+      match segs.getLast? with
+      | none => some localAs
+      | some (t, ns) =>
+          if t = 2 then (match ns.getLast? with | some asn => some asn | none => some localAs)
+          else if t = 1 then none
+          else some localAs
+
+/-- expected validation state: "valid" / "invalid" / "not-found" -/
+def rpkiExpected (vrps : List Vrp) (a m : Nat) (origin : Option Nat) : String :=
+  let cand := vrps.filter fun v => v.len ≤ m ∧ a / 2 ^ (32 - v.len) = v.addr / 2 ^ (32 - v.len)
+  if cand.isEmpty then "not-found"
+  else if cand.any (fun v => m ≤ v.maxLen ∧ v.asn ≠ 0 ∧ some v.asn = origin) then "valid"
+  else "invalid"
+
+def shownName : Option RState → String
+  | none => "none" | some .notFound => "not-found" | some .valid => "valid"
+  | some .invalidAsn => "invalid" | some .invalidLen => "invalid"
+
+/-- the speaker's AS in the harness's `Global` -/
+def speakerAs : Nat := 65000
+
+def checkRpki (x : ApiNlri) (sent : List ApiAttr) (vrps : List Vrp) (shown : Option RState) : Verdict :=
+  match x, vrps with
+  | .prefix (.ip4 a) m, _ :: _ =>
+      let want := rpkiExpected vrps a m (routeOrigin speakerAs sent)
+      if shownName shown = want then .ok
+      else .fail ("rpki-shown-" ++ shownName shown ++ "-expected-" ++ want)
+  | _, _ => .ok
+
 def check : Case → Obs → Verdict
   | _, .unmodelled => .ok
   | .attrWire .., .notStored _ => .ok
@@ -283,10 +320,10 @@ def check : Case → Obs → Verdict
         (match l with
          | [o] => if o.api = x then .ok else .fail "listed-differs-from-added"
          | _ => .fail "unexpected-observation")
-  | .grpc _ _, .addRefused => .ok
-  | .grpc _ _, .listPanic => .fail "add-or-list-path-panics"
-  | .grpc x sent, .listed n ys =>
-      if n = x then checkPath sent ys else .fail "listed-differs-from-added"
+  | .grpc _ _ _, .addRefused => .ok
+  | .grpc _ _ _, .listPanic => .fail "add-or-list-path-panics"
+  | .grpc x sent vrps, .listed n ys v =>
+      if n = x then seq (checkPath sent ys) (checkRpki x sent vrps v) else .fail "listed-differs-from-added"
   | .explore _, .exploreOk => .ok
   | .explore k, .exploreFail w => .fail ("explore-" ++ k ++ "-" ++ w)
   | _, _ => .fail "unexpected-observation"
